@@ -184,6 +184,9 @@ def run_family(prop, name, cfgs, rand_cfg, binary, seed, tier, tlc_workers=3, ra
             return ck, "t" + obs_key(ck, [r["obs"], r.get("proj"), r.get("solo")])
         return ck, obs_key(ck, r["obs"])
 
+    rand_recs = []
+    rand_validate_max = 300 if tier == "quick" else 3000
+    rand_ix = {json.dumps(c, sort_keys=True): i for i, c in enumerate(rcs)}
     # pass 1 (streaming): drift, and which traces TLC still has to judge
     with open(tr_file) as f, open(jf, "w") as jout:
         for line in f:
@@ -211,6 +214,8 @@ def run_family(prop, name, cfgs, rand_cfg, binary, seed, tier, tlc_workers=3, ra
                     drift.append(dict(kind="dfs_obs_differs", id=rid, script=r["script"]))
             else:
                 rand_n += 1
+                if not twosub and len(rand_recs) < rand_validate_max and ck in rand_ix:
+                    rand_recs.append(dict(id=rid, ci=rand_ix[ck] + 1, script=r["script"], obs=r["obs"]))
             if k not in verdict:
                 n_not_model += 1
                 if k not in judged_keys:
@@ -225,8 +230,17 @@ def run_family(prop, name, cfgs, rand_cfg, binary, seed, tier, tlc_workers=3, ra
         for sk in model_scripts:
             if sk not in dfs_scripts:
                 drift.append(dict(kind="model_behaviour_not_in_code", script=json.loads(sk[1])))
+    # (4) traces of the real code at bounds TLC does not enumerate: are they behaviours of the model?
+    res["rand_validated_against_model"] = 0
+    if rand_recs:
+        acc, _, vdt = tlc.validate_against_model(wd, "TM_" + name, rcs, rand_recs, workers=tlc_workers)
+        res["rand_validated_against_model"] = len(rand_recs)
+        res["validate_s"] = vdt
+        for r in rand_recs:
+            if r["id"] not in acc:
+                drift.append(dict(kind="random_trace_not_in_model", id=r["id"], script=r["script"]))
     res.update(replayed=replayed, dfs=dfs_n, rand=rand_n, drift=len(drift), drift_samples=drift[:3],
-               dfs_equals_model=(dfs and not truncated and not any(d["kind"] != "replay_differs" for d in drift)),
+               dfs_equals_model=(dfs and not truncated and not any(d["kind"] not in ("replay_differs",) for d in drift)),
                dfs_truncated=truncated)
     # (3) TLC judges every trace of the real code that is not literally a judged model behaviour
     if judged_keys:
@@ -507,6 +521,7 @@ def write_evidence(prop, tier, seed, results, violations, known, wall, extra=Non
         model_behaviours_replayed_on_code=sum(r.get("replayed", 0) for r in results),
         code_dfs_runs=sum(r.get("dfs", 0) for r in results),
         code_random_runs=sum(r.get("rand", 0) for r in results),
+        random_traces_validated_against_model=sum(r.get("rand_validated_against_model", 0) for r in results),
         traces_judged_by_traceprops=sum(r.get("judged_by_traceprops", 0) for r in results),
         traces_equal_to_a_judged_model_behaviour=sum(r.get("judged_as_model_behaviour", 0) for r in results),
         drift=sum(r.get("drift", 0) for r in results),
